@@ -32,11 +32,16 @@ MANIFEST = dict(
          "OrderSensitive examples pin it), C20_truncation / C20_truncation_prefix, C20_short_read_main / C20_short_read / "
          "C20_short_read_dest / _enough / _adpcm / _header / _none (a read that comes back short although hio_size() promised the bytes: the "
          "delivered bytes survive and the tail is zero before any conversion, every width and every cut, frame-aligned or not; ADPCM "
-         "fails as a whole), C20_loop, C20_guards, C20_no_error, C20_vidc_table, "
+         "fails as a whole), C20_loop, C20_final_loop / C20_final_loop_id (the loop clause on the sample as finally exposed: loop points "
+         "a loader stores after the PCM load are put in range by the epilogue's loop block, C03's LoadPost.epilogueLoop), C20_guards, C20_no_error, C20_vidc_table, "
          "Sample.alloc_le, Sample.writes_in_bounds. The model is tied to src/loaders/sample.c on every run by regenerated "
          "constants/tables (translator) and a differential correspondence against the real function under ASan+UBSan on the whole "
          "allocation data[-4 .. bytelen+extralen), incl. every call the corpus modules' real loaders make (link-time spy); the "
-         "closed form (with its own copy of the published VIDC law) doubles as the direct oracle that yields replayable failing inputs.",
+         "closed form (with its own copy of the published VIDC law) doubles as the direct oracle that yields replayable failing inputs. "
+         "Beyond load time the check also evaluates the property on the sample as exposed later: the final headers of every corpus / "
+         "synthetic module (DBM in both chunk orders) against LoadPost.epilogueLoop and the loop-range clause, and the PCM + guard "
+         "frames after playback (one-instrument module around each tested sample and the corpus modules themselves, nearest/linear/"
+         "spline, loop end == len) against their load-time content, which the load correspondence ties to the Lean reference.",
     note="Trusted: Lean kernel (propext/Classical.choice/Quot.sound only), the hand-written definitions in XmpModel/Sample.lean "
          "(loop-style model and closed-form specification), tools/gen_sample.py, the harness and differ. Modelled-not-verified: the HIO "
          "layer (hio_tell/hio_size/hio_read/hio_seek are assumed: a read delivers min(requested, what is left of `limit`) bytes and "
@@ -47,17 +52,22 @@ MANIFEST = dict(
          "The single byte adpcm4_decoder writes at dest[bytelen] for odd bytelen is not represented in the model's buffer (it is "
          "covered by writes_in_bounds and overwritten by the guard fill). Sample.accesses (the access ranges writes_in_bounds "
          "talks about) is a hand transcription checked against the C only by ASan in the harness. Correspondence is differential "
-         "(quick: sampled; thorough: exhaustive small space + sampled large + whole corpus), not a proof about the C text.",
+         "(quick: sampled; thorough: exhaustive small space + sampled large + whole corpus), not a proof about the C text. "
+         "Post-playback integrity is only evaluated (direct oracle, no Lean model of the mixer's loop wrap-around: that is C15's); "
+         "LoadPost.epilogueLoop is C03's model, used read-only.",
     technique="Lean 4 proofs by induction over each pass (loop = closed form) + regenerated constants + differential "
               "correspondence and closed-form oracle against the sanitized C",
     design_ref="DESIGN.md section 4 C20",
 )
 
+WRAP = ["-Wl,--wrap=libxmp_load_sample", "-Wl,--wrap=libxmp_load_epilogue"]
+
 REQUIRED = ["Xmp.Sample." + n for n in (
     "C20_stage_order", "C20_vidc_table", "C20_main", "C20_no_error", "C20_loaded", "C20_pipeline", "C20_pipeline_load", "C20_stage_shl1", "C20_stage_bswap",
     "C20_stage_delta8", "C20_stage_delta16", "C20_stage_unsign", "C20_stage_vidc", "C20_stage_interleave", "C20_stage_adpcm",
     "C20_truncation", "C20_truncation_prefix", "C20_short_read_main", "C20_short_read_none", "C20_short_read_dest",
-    "C20_short_read", "C20_short_read_enough", "C20_short_read_adpcm", "C20_short_read_header", "C20_loop", "C20_guards", "alloc_le", "writes_in_bounds")]
+    "C20_short_read", "C20_short_read_enough", "C20_short_read_adpcm", "C20_short_read_header", "C20_loop",
+    "C20_final_loop", "C20_final_loop_id", "C20_guards", "alloc_le", "writes_in_bounds")]
 
 FIELDS = ["ret", "len", "lps", "lpe", "flg", "tell", "data"]
 FBITS = {"DIFF": 1, "UNS": 2, "8BDIFF": 4, "7BIT": 8, "NOLOAD": 0x10, "BIGEND": 0x40, "VIDC": 0x80, "INTERLEAVED": 0x100,
@@ -154,11 +164,19 @@ def job(args):
                         "stderr": (err2 or err)[-3000:]}
         return res
     hl = text.splitlines()
-    cases, rl, ol = [], [], {}
+    cases, rl, ol, er, epi = [], [], {}, {}, {}
     for l in hl:
-        c = l[0]
+        c = l[0] if l else ""
         if c == "c":
             cases.append(l)
+        elif c == "E" and l.startswith("ER "):
+            f = l.split(" ", 2)
+            er[f[1]] = f[2]
+        elif c == "e" and l.startswith("epi "):
+            f = l.split(" ", 2)
+            epi[f[1]] = f[2]
+        elif c == "p" and l.startswith("plays "):
+            res["stats"]["played_after_load"] = res["stats"].get("played_after_load", 0) + int(l.split(" ")[1])
         elif c == "R":
             rl.append(l)
         elif c == "O":
@@ -175,6 +193,16 @@ def job(args):
     if len(cases) != len(rl):
         raise vlib.InfraError("harness output malformed: %d cases, %d results (%s)" % (len(cases), len(rl), hargs))
     dl = run_driver_bytes(out) if have_driver else None
+    em = {}
+    if dl is not None and epi:
+        rest = []
+        for l in dl:
+            if l.startswith("EM "):
+                f = l.split(" ", 2)
+                em[f[1]] = f[2]
+            else:
+                rest.append(l)
+        dl = rest
     if dl is not None and len(dl) != 2 * len(cases):
         raise vlib.InfraError("driver output malformed: %d lines for %d cases" % (len(dl), len(cases)))
     st = res["stats"]
@@ -262,8 +290,93 @@ def job(args):
             continue
         if len(res["bad"]) < 40:
             res["bad"].append({"case": cl, "R": r, "M": m, "S": s, "O": o, "ok_s": ok_s, "ok_m": ok_m})
+    # sample headers through libxmp_load_epilogue (corpus mode): real vs LoadPost.epilogueLoop/epilogueSmp
+    for k, pre in epi.items():
+        bump("epilogue_headers")
+        pf = pre.split(" ")
+        real = er.get(k)
+        if real is not None and pf[0] == "1":
+            rfl = real.split(" ")
+            if (pf[2], pf[3], pf[4]) != (rfl[0], rfl[1], rfl[2]):
+                bump("epilogue_changed_loop_or_flags")
+            if int(pf[2]) < 0 or int(pf[3]) > int(pf[1]) or int(pf[2]) > int(pf[3]):
+                bump("epilogue_saw_loop_outside_data")
+        if have_driver and real is not None and em.get(k) is not None and em[k] != real and len(res["bad"]) < 60:
+            res["bad"].append({"kind": "epilogue", "id": k, "pre": pre, "real": real, "model": em[k], "file": hargs[2:]})
+        elif have_driver and real is not None and em.get(k) == real:
+            res["validated"] += 1
+    # oracle lines that do not belong to a case line (final headers / playback of a whole corpus module)
+    cids = None
+    for k, what in ol.items():
+        if k.startswith("c") and "_e" in k:
+            res["bad"].append({"kind": "module-oracle", "id": k, "O": what, "file": hargs[2:]})
     res["n"] = len(cases)
     return res
+
+
+def synth_modules(ck, nrandom):
+    """Modules whose loaders store loop points AFTER the PCM was loaded (DBM with SMPL before INST) and the usual order,
+    with loops inside, at and beyond the data; plus random modules of the coordinator's generators (tools/synthmods.py,
+    used read-only).  Written under out/ (git-ignored)."""
+    import random
+    import shutil
+    try:
+        import synthmods
+    except Exception as e:      # the generators are not ours: their absence must not break the check
+        ck.note("synthmods_unavailable", str(e)[:200])
+        return []
+    d = os.path.join(vlib.OUT, "c20-synth")
+    shutil.rmtree(d, ignore_errors=True)
+    os.makedirs(d, exist_ok=True)
+    rng = random.Random(ck.seed * 977 + 5)
+    out = []
+    loops = [(4, 100), (0, 16), (4, 8), (16, 4), (0, 0), (15, 1), (0x7fffffff, 1), (0, 0xffffffff), (8, 8), (1, 39), (0, 41), (20, 20)]
+    orders = [("INFO", "SONG", "INST", "PATT", "SMPL"), ("INFO", "SONG", "SMPL", "PATT", "INST"), ("INFO", "SMPL", "INST", "SONG", "PATT")]
+    k = 0
+    try:
+        for oi, order in enumerate(orders):
+            for g in range(0, len(loops), 4):
+                samples = [(1, 16, bytes(rng.randrange(256) for _ in range(16))),
+                           (2, 40, bytes(rng.randrange(256) for _ in range(80)))]
+                insts = []
+                for j, (lps, lpl) in enumerate(loops[g:g + 4]):
+                    insts.append((1 + (j + g // 4) % 2, 64, 8363, lps, lpl, 0, rng.choice([1, 2, 1, 3])))
+                cells = [(r, 1 + r % 2, 0x30 + r, 1 + r % len(insts), None, 0, None, 0) for r in range(8)]
+                data = synthmods.dbm_module(2, [0], [(16, cells)], insts, samples, (), (), order, version=0x0205)
+                fn = os.path.join(d, "dbm-order%d-loops%d.dbm" % (oi, g))
+                open(fn, "wb").write(data)
+                out.append(fn)
+        gens = [getattr(synthmods, n) for n in ("gen_dbm", "gen_mmd", "gen_xm", "gen_it", "gen_s3m", "gen_mod", "gen_dbm", "gen_mmd")
+                if hasattr(synthmods, n)]
+        for i in range(nrandom):
+            g = gens[i % len(gens)]
+            data, ext = g(rng)
+            if len(data) > 300000:
+                continue
+            fn = os.path.join(d, "rnd%04d.%s" % (i, ext))
+            open(fn, "wb").write(data)
+            out.append(fn)
+            k += 1
+    except Exception as e:
+        ck.note("synthmods_error", repr(e)[:200])
+    ck.note("synthetic_modules", len(out))
+    return out
+
+
+def fnv32(s):
+    h = 0xcbf29ce484222325
+    for ch in s.encode():
+        h ^= ch
+        h = (h * 0x100000001b3) & 0xffffffffffffffff
+    return h & 0xffffffff
+
+
+def file_of_id(cid, files):
+    """the corpus-mode ids are `c<fnv of the path>_...`"""
+    for fn in files:
+        if cid.startswith("c%08x_" % fnv32(fn)):
+            return fn
+    return None
 
 
 def shrink_note(b):
@@ -275,7 +388,7 @@ def run(ck):
     ck.note("translator", {"SampleConsts_changed": g["changed"], "flag_order": g["flag_order"], "stage_order": g["stage_order"]})
     ck.proofs(["XmpProps.C20"], required=REQUIRED, drivers=["drv_c20"])
     proofs_ok = bool(getattr(ck, "lean_ok", False)) and not ck.unproved_items
-    exe = vlib.build_harness("c20_sample", ["c20_sample.c"], extra=["-Wl,--wrap=libxmp_load_sample"])
+    exe = vlib.build_harness("c20_sample", ["c20_sample.c"], extra=WRAP)
     quick = ck.tier == "quick"
     have_driver = os.path.exists(vlib.lean_driver("drv_c20")) and getattr(ck, "lean_ok", False)
     if not have_driver and os.path.exists(vlib.lean_driver("drv_c20")):
@@ -316,6 +429,7 @@ def run(ck):
     ck.rng.shuffle(files)
     if quick:
         files = files[:96]
+    files = synth_modules(ck, 40 if quick else 400) + files
     per = 6 if quick else 16
     for i in range(0, len(files), per):
         jobs.append((exe, ["corpus", "60000" if quick else "400000"] + files[i:i + per], have_driver))
@@ -345,10 +459,28 @@ def run(ck):
         for s in r["samples"]:
             ck.sample(s, limit=5)
         for b in r["bad"]:
+            if b.get("kind") == "module-oracle":
+                fn = file_of_id(b["id"], b["file"])
+                blob = None
+                if fn and os.path.getsize(fn) < (1 << 20):
+                    blob = open(fn, "rb").read().hex()
+                ck.violation("sample:oracle:" + b["O"].split(" ")[0],
+                             {"files": [fn] if fn else b["file"], "module_name": os.path.basename(fn) if fn else None, "module_hex": blob,
+                              "sample": b["id"], "oracle": b["O"],
+                              "how": "c20_sample corpus 400000 <file> ; look for `O` lines"},
+                             "a sample of a successfully loaded module violates the property: %s (%s) ; files %s"
+                             % (b["O"], b["id"], " ".join(os.path.basename(x) for x in b["file"])[:300]))
+                continue
+            if b.get("kind") == "epilogue":
+                ck.unproved("correspondence LoadPost.epilogueLoop vs libxmp_load_epilogue",
+                            "sample %s entered the epilogue as (hasdata len lps lpe flg sus sue)=(%s), left it as (lps lpe flg)=(%s), "
+                            "the model says (%s) ; files %s" % (b["id"], b["pre"], b["real"], b["model"],
+                                                             " ".join(os.path.basename(x) for x in b["file"])[:300]))
+                continue
             rf = b["R"].split(" ")[2:]
             if b["O"] is not None:
                 ck.violation("sample:oracle:" + b["O"].split(" ")[0], {"case": b["case"], "real": b["R"], "oracle": b["O"]},
-                             "shape oracle failed on the real libxmp_load_sample: %s ; case %s" % (b["O"], b["case"][:300]))
+                             "C-side oracle (shape right after the load / sample memory after playback) failed on the real code: %s ; case %s" % (b["O"], b["case"][:300]))
             elif not b["ok_s"]:
                 fld = which_field(rf, b["S"].split(" ")[2:])
                 ck.violation("sample:" + fld, {"case": b["case"], "real": b["R"], "spec": b["S"], "model": b["M"]},
@@ -377,7 +509,7 @@ def run(ck):
                       "random (all 12 flag bits, 8/16 bit, mono/stereo, len -3..64 and > MAX_SAMPLE_SIZE, loop points incl. inverted/"
                       "out-of-range/INT_MIN/INT_MAX, avail 0..need+9, NULL handle), big (len 65..70000), exh (every combination of the 10 "
                       "effective flag bits x width x layout x len 0..9 x every avail 0..need+3 x rotating loop grid (3 points per combination in quick, 12 in thorough, of 252), plus the full loop grid "
-                      "on 4 flag sets; quick runs a seed-chosen 16/4096 slice), short / exhs (callback HIO handle whose read function delivers only `limit` bytes although hio_size() promised more: random cases with limit 0, need-1, 0..need+1, >= avail; and every width x len 1..6 x {complete, longer, truncated} stream x every limit 0..need+1 on 8 flag sets incl. ADPCM), corpus (every call real loaders make to libxmp_load_sample while the repository's test modules are loaded from memory, recorded by a --wrap spy with the stream cut to need+8 bytes). distinct = hash of the case without its id; non-trivial = "
+                      "on 4 flag sets; quick runs a seed-chosen 16/4096 slice), short / exhs (callback HIO handle whose read function delivers only `limit` bytes although hio_size() promised more: random cases with limit 0, need-1, 0..need+1, >= avail; and every width x len 1..6 x {complete, longer, truncated} stream x every limit 0..need+1 on 8 flag sets incl. ADPCM), corpus (every call real loaders make to libxmp_load_sample while the repository's test modules and synthetic DBM/MED/XM/IT/S3M/MOD modules - DBM in both chunk orders with loops inside, at and beyond the data - are loaded from memory, recorded by a --wrap spy with the stream cut to need+8 bytes; every sample header entering and leaving libxmp_load_epilogue; the final headers; 12 frames of playback per interpolator). After every Nth load-time case (all in random/short/exhs/replay, 1/8 in exh) a one-instrument module is built around the loaded sample and played with nearest/linear/spline, as loaded and with a loop ending at len and a bidirectional inner loop, and the allocation is compared with its load-time content. distinct = hash of the case without its id; non-trivial = "
                       "the real code allocated PCM with len' > 0 and a conversion applied, the sample was truncated, or loop/flags changed, or a short read made the load fail")
     ck.assumptions += [
         "memory HIO handle semantics (hio_tell/hio_size/hio_read/hio_seek) as modelled: reads are complete up to the end, seeks clamp",
@@ -387,8 +519,27 @@ def run(ck):
 
 
 def replay(ck, rp):
-    exe = vlib.build_harness("c20_sample", ["c20_sample.c"], extra=["-Wl,--wrap=libxmp_load_sample"])
-    case = rp["replay"]["case"] if isinstance(rp.get("replay"), dict) else None
+    exe = vlib.build_harness("c20_sample", ["c20_sample.c"], extra=WRAP)
+    case = rp["replay"].get("case") if isinstance(rp.get("replay"), dict) else None
+    if not case and isinstance(rp.get("replay"), dict) and (rp["replay"].get("module_hex") or rp["replay"].get("files")):
+        r = rp["replay"]
+        files = list(r.get("files") or [])
+        if r.get("module_hex"):
+            fn = os.path.join(vlib.OUT, "c20-replay-" + (r.get("module_name") or "module.bin"))
+            open(fn, "wb").write(bytes.fromhex(r["module_hex"]))
+            files = [fn]
+        rc, out, err = vlib.run_exe(exe, ["corpus", "400000"] + files)
+        olines = [l for l in out.decode("latin-1").splitlines() if l.startswith("O ") or l.startswith("file ")]
+        print("\n".join(l[:300] for l in olines))
+        if rc != 0:
+            print(err[-3000:])
+            print("VIOLATION property=C20 replay=%s (sanitizer abort: %s)" % (files[0], vlib.sanitizer_signature(err)))
+            return 1
+        if any(l.startswith("O ") for l in olines):
+            print("VIOLATION property=C20 replay=%s" % files[0])
+            return 1
+        print("module passes on the current tree")
+        return 0
     if not case:
         print("replay file holds no case (proof-only failure): %s" % rp.get("what"))
         print(rp.get("replay"))
